@@ -59,6 +59,11 @@ class ExcFlow:
         if isinstance(node, ast.Subscript):
             k = self.state_kind(node.value, f)
             txt = ast.unparse(node.value)
+            if isinstance(node.ctx, ast.Store):
+                # a write to a caller-supplied database may fail (fault model of C04 / C05)
+                if k in ("DB", "WDB", "MAPPARAM"):
+                    out.append(("ANY", ("dbwrite", f.qual, node.lineno, txt)))
+                return out
             if k in KEYERROR_STATE or k == "MAPPARAM":
                 kind = "dbdel" if isinstance(node.ctx, ast.Del) else "dbread"
                 if not (self.complete_db and kind == "dbread"):
